@@ -22,7 +22,12 @@
 (*         named = every value carries a display name)                     *)
 (*   [kind: "list", items: Schema, min: Opt, max: Opt]                     *)
 (*   [kind: "map", keys: Schema, vals: Schema, min: Opt, max: Opt]         *)
-(*   [kind: "object", id: STRING, props: SUBSET Prop, id_unenforced: BOOLEAN]*)
+(*   [kind: "object", id: STRING, props: SUBSET Prop, id_unenforced: BOOLEAN,*)
+(*        impl: "plain" | "mapped" | "typed"]                              *)
+(*        (impl: which Go value carries the object - NewObjectSchema,      *)
+(*         NewStructMappedObjectSchema[T] (reflects as a struct) or the    *)
+(*         typed wrapper NewTypedObject[T]; the contract does not depend   *)
+(*         on it, the code's reflection-based gates might)                 *)
 (*        Prop = [name: STRING, required: BOOLEAN, type: Schema,           *)
 (*                has_default: BOOLEAN, disabled: BOOLEAN]                 *)
 (*        (has_default: the property declares a default value - the        *)
@@ -61,7 +66,8 @@ List(it, mn, mx)       == [kind |-> "list", items |-> it, min |-> mn, max |-> mx
 Map(ks, vs, mn, mx)    == [kind |-> "map", keys |-> ks, vals |-> vs, min |-> mn, max |-> mx]
 PropX(n, t, req, dflt, dis) == [name |-> n, required |-> req, type |-> t, has_default |-> dflt, disabled |-> dis]
 Prop(n, t, req)        == PropX(n, t, req, FALSE, FALSE)
-Object(id, ps, unenf)  == [kind |-> "object", id |-> id, props |-> ps, id_unenforced |-> unenf]
+ObjectI(id, ps, unenf, impl) == [kind |-> "object", id |-> id, props |-> ps, id_unenforced |-> unenf, impl |-> impl]
+Object(id, ps, unenf)  == ObjectI(id, ps, unenf, "plain")
 Ref(id)                == [kind |-> "ref", id |-> id]
 Scope(root, objs)      == [kind |-> "scope", root |-> root, objects |-> objs]
 OneOf(disc, f, ms)     == [kind |-> "oneof", disc |-> disc, field |-> f, members |-> ms]
@@ -79,11 +85,20 @@ Family(S) ==
       [] S.kind = "oneof"                      -> IF S.disc = "string" THEN "one_of_string" ELSE "one_of_int"
       [] OTHER                                 -> S.kind      \* bool, pattern, list, map, any
 
-\* pairs of families the property leaves unconstrained: any on either side, and the numeric
-\* pair integer <-> float (an integer producer can be consumed by a float consumer through
+\* "any" as a consumer: a wildcard over maps, lists, integers, floats, strings and bools (its constructor's
+\* words).  What the other kinds emit is made of those - an enum value is an integer or a string, an object
+\* or one-of value a map - EXCEPT a pattern, whose values are compiled regular expressions any refuses: a
+\* pattern producer can never be consumed by an any consumer, that pair is a pair of different base kinds.
+AnyRefuses == {"pattern"}
+
+\* pairs of families the property leaves unconstrained: an any consumer with a producer of a kind it can
+\* hold (whether the SDK accepts every such producer - references, scopes, struct-mapped or typed objects -
+\* is not fixed by the statement: either verdict), an any producer (its values may or may not fit), and the
+\* numeric pair integer <-> float (an integer producer can be consumed by a float consumer through
 \* the lenient conversions, so either verdict is consistent with the statement)
 Unconstrained(A, B) ==
-    \/ A.kind = "any" \/ B.kind = "any"
+    \/ A.kind = "any" /\ B.kind \notin AnyRefuses
+    \/ B.kind = "any"
     \/ {Family(A), Family(B)} = {"integer", "float"}
 
 \* ------------------------------------------------------------------ references
@@ -195,6 +210,9 @@ VerdictOK(A, B, verdict) ==
 \* root and every reference resolve, one-of members are objects that do not declare the
 \* discriminator field themselves (not inlined), defaults are declared on properties of scalar kinds
 \* only (the harness has to render a value of the type).
+\* struct-mapped and typed objects are bound to ONE Go struct of the harness with a field for each of these
+\* names; they have no ID-unenforced variant; scope tables and one-of members hold plain or mapped objects
+MappedNames == {"p", "q", "r", "s", "v", "next", "x", "y", "z", "c"}
 DefaultKinds == {"int", "float", "string", "bool", "enum_int", "enum_string"}
 KeyKinds == {"int", "string", "enum_int", "enum_string"}
 BoundsOK(S) == /\ (S.min.some => S.min.v >= 0) /\ (S.max.some => S.max.v >= 0)
@@ -211,16 +229,19 @@ WF(S, table) ==
       [] S.kind = "object" ->
             /\ \A p \in S.props, q \in S.props : p.name = q.name => p = q
             /\ \A p \in S.props : WF(p.type, table) /\ (p.has_default => p.type.kind \in DefaultKinds)
+            /\ S.impl \in {"plain", "mapped", "typed"}
+            /\ S.impl # "plain" => (~S.id_unenforced /\ PropNames(S) \subseteq MappedNames)
       [] S.kind = "ref" -> Declared(table, S.id)
       [] S.kind = "scope" ->
             /\ Declared(S.objects, S.root)
             /\ \A o \in S.objects, p \in S.objects : o.id = p.id => o = p
-            /\ \A o \in S.objects : o.kind = "object" /\ WF(o, S.objects)
+            /\ \A o \in S.objects : o.kind = "object" /\ o.impl # "typed" /\ WF(o, S.objects)
       [] S.kind = "oneof" ->
             /\ S.members # {} /\ S.disc \in {"string", "int"}
             /\ \A m \in S.members, n \in S.members : m.key = n.key => m = n
             /\ \A m \in S.members :
                   /\ m.obj.kind \in {"object", "ref", "scope"}
+                  /\ (m.obj.kind = "object" => m.obj.impl # "typed")
                   /\ WF(m.obj, table)
                   /\ S.field \notin PropNames(Denote(m.obj, table).obj)
       [] OTHER -> FALSE
